@@ -8,7 +8,7 @@ CHECKS = {
         'one counter increment per delivered and settled message with the winning label, one handler observation per invocation with errors and panics as failures. '
         'The subscriber and publisher acceptors the check evaluates are proved to accept every model run (list level: delivery order, trail per delivery, aggregated tables); Publish is also modelled in place on a heap (the same *Message several times in a batch) with a refinement theorem to the by-value model and transparency for arbitrary repetitions. Refuted with witnesses: handler panic and wrapped-publisher panic recorded as success (D11 and its publisher twin, both repaired by fix commits) and the handler middleware applied twice counting twice (repaired: per-invocation context mark; chain model with Retry proves any number of applications = one, Retry unaffected). '
         'Tied to the code on every run: random real decorator stacks around scripted publishers/subscribers, a private Prometheus registry gathered at quiescence, a real Router with '
-        'AddPrometheusRouterMetrics 1-3 times, concurrent publishes, Delay values built over a second before they are stamped, a wrapped subscriber that drains inside its own Close against a busy consumer, delay constructors bracketed by clock readings; every snapshot compared with the model and judged by the proved acceptors.'),
+        'AddPrometheusRouterMetrics 1-3 times, concurrent publishes, overlapping invocations of middleware chains forced through gates, Close called 1-3 times with different wrapped answers, Delay values built over a second before they are stamped, a wrapped subscriber that drains inside its own Close against a busy consumer, delay constructors bracketed by clock readings; every snapshot compared with the model and judged by the proved acceptors.'),
   note=('Trusted: Coq kernel + vm_compute; Prometheus as a log of label tuples, context marks as booleans, watcher goroutines firing on the first settlement, RFC 3339 / Duration string round trips; '
         'the Go harness and the two add-only export_verif.go files. Every acceptor the check evaluates (pub_monitor_full incl. trail multiplicity on repeated objects, sub_monitor, mw_monitor, chain and Router tables, agree_within) is proved to accept every model run; label values are theorems. Outside the model: metrics/http.go, histogram values. '
         'Thorough tier adds a -race run (testing).'),
